@@ -25,7 +25,7 @@ def main():
         elif on:
             if e['ev'] == 'run':
                 c = e['cfg']
-                print(' -- run', e['tag'], 'allow=' + ''.join(x for x, f in (('I', c['allowId']), ('H', c['allowHier']), ('S', c['allowSize'])) if f), 'max=' + (hx(c['max']) if c['hasMax'] else 'none'), 'buf=' + ','.join(hx(x) for x in c['buffered']), 'eofClose=%s cap=%s' % (c['eofClose'], c['cap']), 'sched=', e['sched'])
+                print(' -- run', e['tag'], 'allow=' + ''.join(x for x, f in (('I', c['allowId']), ('H', c['allowHier']), ('S', c['allowSize'])) if f), 'max=' + (hx(c['max']) if c['hasMax'] else 'none'), 'buf=' + ','.join(hx(x) for x in c['buffered']), 'eofClose=%s cap=%s' % (c['eofClose'], c['cap']), 'sched=', ['P' if x == -1 else ('E' if x == -2 else x) for x in e['sched']])
                 print('    input[%d]: %s' % (len(e['input']), hx(e['input'])))
             elif e['ev'] in ('next', 'recover'):
                 st = e.get('st')
